@@ -2,6 +2,7 @@ package main
 
 import (
 	"fmt"
+	"sort"
 	"sync"
 	"sync/atomic"
 
@@ -27,13 +28,14 @@ import (
 type idMetric struct {
 	desc *prometheus.Desc
 	id   int
+	vals []string
 }
 
 func (m *idMetric) Desc() *prometheus.Desc  { return m.desc }
 func (m *idMetric) Write(*dto.Metric) error { return nil }
 
 type schedReq struct {
-	kind int // 0 lookup, 1 delete, 2 partial, 3 reset
+	kind int // 0 lookup, 1 delete, 2 partial, 3 reset, 4 collect
 	form int // which of the two API forms
 	t    []string
 	ls   prometheus.Labels
@@ -49,6 +51,8 @@ func (q schedReq) sx() string {
 		return emit.C(q.kind, emit.L(it))
 	case 2:
 		return emit.C(2, emitLabels(q.ls))
+	case 4:
+		return emit.C(4)
 	}
 	return emit.C(3)
 }
@@ -66,7 +70,7 @@ func newStampedVec(names []string, hm int) *prometheus.MetricVec {
 	next := 0
 	desc := prometheus.NewDesc("m", "h", names, nil)
 	vec := prometheus.NewMetricVec(desc, func(lvs ...string) prometheus.Metric {
-		m := &idMetric{desc, next}
+		m := &idMetric{desc, next, append([]string(nil), lvs...)}
 		next++
 		return m
 	})
@@ -81,10 +85,12 @@ func genSchedProgs(r *emit.Rng, names, vals []string, pool [][]string, nthreads,
 		for k := 0; k < n; k++ {
 			q := schedReq{form: r.Intn(2), t: pool[r.Intn(len(pool))]}
 			switch x := r.Intn(100); {
-			case x < 55:
+			case x < 50:
 				q.kind = 0
-			case x < 85:
+			case x < 78:
 				q.kind = 1
+			case x < 86:
+				q.kind = 4
 			case x < 95:
 				q.kind = 2
 				q.ls = prometheus.Labels{}
@@ -134,6 +140,29 @@ func doReq(vec *prometheus.MetricVec, names []string, q schedReq) string {
 		}
 	case 2:
 		out = emit.C(3, emit.I(vec.DeletePartialMatch(q.ls)))
+	case 4:
+		// Collect into a channel that never blocks (the scheduler cannot see channel operations)
+		ch := make(chan prometheus.Metric, 256)
+		vec.Collect(ch)
+		close(ch)
+		var ms []*idMetric
+		nils := 0
+		for m := range ch {
+			if im, ok := m.(*idMetric); ok && im != nil {
+				ms = append(ms, im)
+			} else {
+				nils++
+			}
+		}
+		sort.SliceStable(ms, func(i, j int) bool { return ms[i].id < ms[j].id })
+		it := make([]string, 0, len(ms)+nils)
+		for _, im := range ms {
+			it = append(it, emit.Tup(emit.SL(im.vals), emit.I(im.id)))
+		}
+		for k := 0; k < nils; k++ {
+			it = append(it, emit.Tup(emit.SL(nil), emit.I(999997)))
+		}
+		out = emit.C(5, emit.L(it))
 	default:
 		vec.Reset()
 		out = emit.C(4)
